@@ -533,10 +533,10 @@ def run(ctx):
         for trait, b in std:
             cfg = CFG(b)
             seqs.append([norm_call(t) for bb, t in sorted(b.calls(), key=lambda x: x[0]) if interesting(t)])
-        ctx.check(seqs[0] == seqs[1], "R6.6", std[0][1].loc(), "twins|std-deserializer", f"blocking and async request deserializers differ: {seqs[0]} vs {seqs[1]}", instance=f"twins agree on {len(seqs[0])} calls")
+        ctx.check(set(seqs[0]) == set(seqs[1]), "R6.6", std[0][1].loc(), "twins|std-deserializer", f"blocking and async request deserializers use different operations: only blocking {sorted(set(seqs[0]) - set(seqs[1]))}, only async {sorted(set(seqs[1]) - set(seqs[0]))}", instance=f"twins agree on {len(set(seqs[0]))} operations")
     if len(readers) == 2:
         seqs = [[norm_call(t) for bb, t in sorted(b.calls(), key=lambda x: x[0]) if interesting(t)] for b in readers]
-        ctx.check(sorted(seqs[0]) == sorted(seqs[1]), "R6.6", readers[0].loc(), "twins|readers", f"read_body and async_read_body differ: {seqs[0]} vs {seqs[1]}", instance=f"reader twins agree on {len(seqs[0])} calls")
+        ctx.check(set(seqs[0]) == set(seqs[1]), "R6.6", readers[0].loc(), "twins|readers", f"read_body and async_read_body use different operations: only blocking {sorted(set(seqs[0]) - set(seqs[1]))}, only async {sorted(set(seqs[1]) - set(seqs[0]))}", instance=f"reader twins agree on {len(set(seqs[0]))} operations")
     # R6.7 panic inventory
     allow = {("read_body", "assert:overflow:Add"), ("async_read_body", "assert:overflow:Add"), ("{closure#0}", "assert:overflow:Add")}
     for b in [x for _, x in std] + readers + [x for x in c.bodies if x.name in ("check_limit",)]:
@@ -554,7 +554,13 @@ def interesting(t):
         return False
     if n in ("deref", "deref_mut", "transpose", "into_future", "get_context", "new_unchecked", "as_mut", "pin_mut", "into_iter"):
         return False
+    # behaviour-neutral bookkeeping: one twin may size or inspect its buffer differently without changing what it returns
+    if n in NEUTRAL:
+        return False
     return True
+
+
+NEUTRAL = {"len", "is_empty", "reserve", "capacity", "with_capacity", "as_ref", "as_slice", "as_bytes", "borrow", "clone", "size_hint", "remaining", "new", "default", "min", "max"}
 
 
 TWIN = {"async_read_body": "read_body", "try_next": "next"}
